@@ -233,6 +233,13 @@ class Ctx:
                 self.broken.append(f"obligation {n} uses axioms {sorted(seen[n] - ALLOWED_AXIOMS)}")
             else:
                 self.discharged.append(n)
+        # thorough tier: the toolchain's independent re-checker replays the compiled property (and lemma) modules through the kernel
+        if self.tier == "thorough":
+            mods = list(modules) + [m.replace(".Props.", ".Lemmas.") for m in modules if (LEAN / (m.replace(".Props.", ".Lemmas.").replace(".", "/") + ".lean")).exists()]
+            pr = subprocess.run(["lake", "env", "leanchecker", *mods], cwd=LEAN, capture_output=True, text=True, timeout=3600)
+            self.cov["leanchecker"] = {"modules": mods, "rc": pr.returncode}
+            if pr.returncode != 0:
+                self.broken.append("leanchecker rejects " + " ".join(mods) + ": " + (pr.stdout + pr.stderr)[-300:])
 
     @staticmethod
     def _enclosing_theorem(path: Path, ln: int) -> str:
